@@ -6,7 +6,7 @@ from .core import cz, clist, cstr, cbool
 
 IMPORTS = ("From Coq Require Import String.\n"
            "Require Import Hdl21.Base.PyInt Hdl21.Spec.PdkSpec Hdl21.Model.PdkSelect Hdl21.Model.Walker Hdl21.Model.PdkRegistry "
-           "Hdl21.Corr.C03 Hdl21.Corr.C15.\n"
+           "Hdl21.Model.C15Store Hdl21.Corr.C03 Hdl21.Corr.C15 Hdl21.Corr.C15Hist.\n"
            "Require Import Hdl21Gen.PdkTables_sky130 Hdl21Gen.PdkTables_gf180 Hdl21Gen.PdkTables_asap7 Hdl21Gen.PdkTables_sample.\n"
            "Open Scope string_scope.\nOpen Scope list_scope.")
 
@@ -140,11 +140,11 @@ def select_jobs(tables, quick):
                     j["arity"] = "cross"
                     jobs.append(j)
     for tp, vth in itertools.product(en["tp"], en["vth"]):
-        for sz in SIZES_NUM:
+        for sz in SIZES:
             jobs.append(single("asap7", "Mos", dict(tp=tp, vth=vth, **sz)))
     jobs.append(single("asap7", "Mos", dict(tp="NMOS", vth="STD", model="anything", mult=["i", 2], nf=["i", 2])))
     for tp in en["tp"]:
-        for sz in SIZES_NUM:
+        for sz in SIZES:
             for mult in (None, ["i", 2]):
                 jobs.append(single("sample", "Mos", dict(tp=tp, mult=mult, **sz)))
         jobs.append(single("sample", "Mos", dict(tp=tp, vth="LOW", fam="IO", nf=["i", 2])))
@@ -171,6 +171,8 @@ def corpus_jobs():
         single("sky130", "Diode", dict(model="PWND_5p5V", w=["l", "a"], l=["l", "b"])),   # Literal sizes: TypeError escapes (finding)
         single("gf180", "Diode", dict(model="ND2PS_3p3V", w=["l", "a"], l=["l", "b"])),
         single("sky130", "Mos", dict(tp="PMOS", fam="CORE", vth="LOW"), copies=2, times=2, via="default"),
+        single("sample", "Mos", dict(tp="NMOS", l=["l", "lx"])),                    # before C15-7: TypeError (Literal <= 0) escapes
+        single("asap7", "Mos", dict(tp="NMOS", vth="STD", l=["l", "lx"])),          # before C15-8: Literal became a dict, export fails
     ]
 
 
@@ -196,6 +198,7 @@ def rand_params(r, tables, pdk):
     en = tables["enums"]
     sz = r.choice(SIZES_NUM + [dict(w=W1, l=L1)])
     if pdk in ("sample", "asap7"):
+        sz = r.choice(SIZES + [dict(w=W1, l=L1)])
         vth = r.choice(["STD", "LOW"]) if pdk == "asap7" or r.random() < 0.9 else r.choice(en["vth"])
         return "Mos", dict(tp=r.choice(en["tp"]), vth=vth, mult=r.choice([None, ["i", 2]]), **sz)
     kind = r.choice(["xtors", "xtors", "xtors", "ress", "caps", "diodes", "bjts"])
@@ -329,6 +332,217 @@ def run_designs(run, stream, jobs, nontrivial, rule, **extra):
         j, o = built[len(built) // 2]
         run.sample(dict(stream=stream, case={k: v for k, v in j.items()}, impl=dict(err=o["err"], netlist=o["netlist"])))
     return bj, bo
+
+
+# ---------------------------------------------------------------------------------------------- histories
+# One module table whose shared sub-modules are shared OBJECTS, compiled several times, to one or several PDKs, entered
+# at the top or at a sub-module; compilations may raise (a request the PDK has no device for) or map only some
+# primitive kinds (sample PDK, ASAP7: Mos only).  The table is observed after EVERY compilation.
+PDKS = ["sample", "sky130", "gf180", "asap7"]
+VIAS = ["direct", "direct", "name", "module", "default"]
+
+
+def leaf_mid_top(prims):
+    """the smallest hierarchy with a shared sub-module below two parents"""
+    return [dict(name="Leaf", insts=prims),
+            dict(name="Mid", insts=[dict(n="l0", t="mod", ref=0, conns=dict(a="a", b="b"))]),
+            dict(name="Top", insts=[dict(n="mid", t="mod", ref=1, conns=dict(a="a", b="b")),
+                                    dict(n="l1", t="mod", ref=0, conns=dict(a="b", b="a"))])]
+
+
+def hist_corpus():
+    lvt = dict(tp="NMOS", fam="CORE", vth="LOW")                  # Sky130 has it (nfet_01v8_lvt), GF180 has no such device
+    mr = lambda: [inst("m", "Mos", dict(lvt)), inst("r", "PhysicalResistor", dict(model="GEN_PO"))]
+    return [
+        # an earlier compilation to a PDK lacking the device raises; the same hierarchy is then compiled to Sky130
+        dict(mods=leaf_mid_top(mr()), ops=[["gf180", "direct", 2], ["sky130", "direct", 2]]),
+        # the sample PDK maps the Mos alone; Sky130 then maps the rest
+        dict(mods=leaf_mid_top(mr()), ops=[["sample", "direct", 2], ["sky130", "direct", 2]]),
+        # a sub-module first, then the top; then the top again
+        dict(mods=leaf_mid_top(mr()), ops=[["sky130", "module", 0], ["sky130", "name", 2], ["sky130", "default", 2]]),
+        # raises twice, for the same reason: the second walk must not return silently
+        dict(mods=leaf_mid_top(mr()), ops=[["gf180", "direct", 2], ["gf180", "direct", 2], ["asap7", "direct", 1], ["gf180", "direct", 0]]),
+        # the failing request comes AFTER instances that are rewritten: the store keeps the partial result
+        dict(mods=leaf_mid_top([inst("r", "PhysicalResistor", dict(model="RM1")), inst("m", "Mos", dict(lvt)),
+                                inst("q", "Diode", dict(model="ND2PS_3p3V"))]),
+             ops=[["gf180", "direct", 1], ["gf180", "direct", 2], ["sky130", "direct", 2]]),
+        # independent hierarchies in one process, each compiled to its own PDK, equal requests in all of them:
+        # every PDK selects its own device, whatever the others built for the same parameters before
+        dict(mods=[dict(name=nm, insts=[inst("m", "Mos", dict(tp="NMOS", fam="CORE", vth="STD")), inst("n", "Mos", dict(tp="NMOS", fam="CORE", vth="STD"))])
+                   for nm in ("A", "B", "C", "D")],
+             ops=[["sample", "direct", 0], ["sky130", "name", 1], ["gf180", "name", 2], ["asap7", "name", 3], ["gf180", "direct", 0], ["sky130", "direct", 0]]),
+    ]
+
+
+def hist_job(r, tables):
+    home = r.choice(["sky130", "sky130", "sky130", "gf180", "gf180", "gf180", "sample", "asap7"])
+    others = [p for p in PDKS if p != home]
+    nmods = r.choice([2, 3, 3, 4, 4, 5])
+    pool = [rand_params(r, tables, home) for _ in range(r.choice([1, 2, 3]))]
+    # requests by (type, family, threshold): satisfiable by several PDKs, or by one only
+    en = tables["enums"]
+    pool.append(("Mos", dict(tp=r.choice(en["tp"]), fam=r.choice(["CORE", "CORE", "IO", "NONE"]), vth=r.choice(["STD", "STD", "LOW", "HIGH"]))))
+    if r.random() < 0.25:
+        pool.append(rand_params(r, tables, r.choice(others)))              # a request of another PDK: fails for `home`
+    mods = []
+    for k in range(nmods):
+        insts = []
+        for i in range(r.randint(1, 4)):
+            u = r.random()
+            nets = [r.choice("abcd") for _ in range(4)]
+            if k > 0 and u < 0.5:
+                insts.append(dict(n=f"i{i}", t="mod", ref=r.randrange(k), conns=dict(a=nets[0], b=nets[1])))
+            elif u < 0.9 or k == 0:
+                prim, params = r.choice(pool)
+                if params.get("model") in ("NMOS_ISO_20p0V",):
+                    params = dict(params, model="NMOS_20p0V_STD")
+                if "_PREC_" in (params.get("model") or ""):
+                    params = {kk: v for kk, v in params.items() if kk != "l"}
+                insts.append(inst(f"i{i}", prim, params, nets))
+            elif u < 0.95:
+                insts.append(dict(n=f"i{i}", t="ext", conns=dict(a=nets[0], b=nets[1])))
+            else:
+                insts.append(dict(n=f"i{i}", t="ideal", conns=dict(p=nets[0], n=nets[1])))
+        mods.append(dict(name=f"M{k}", insts=insts))
+    top = nmods - 1
+    sub = r.randrange(nmods)
+    other = r.choice(others)
+    part = r.choice(["sample", "asap7"]) if home in ("sky130", "gf180") else r.choice(["sky130", "gf180"])
+    pat = r.choice(["other-home", "other-home", "part-home", "part-home", "sub-top", "othersub-home", "again", "random", "random"])
+    if pat == "other-home":
+        seq = [(other, top), (home, top)]
+    elif pat == "part-home":
+        seq = [(part, top), (home, top)]
+    elif pat == "sub-top":
+        seq = [(home, sub), (home, top)]
+    elif pat == "othersub-home":
+        seq = [(other, sub), (home, top), (home, top)]
+    elif pat == "again":
+        seq = [(other, top), (other, top), (home, top), (other, top)]
+    else:
+        seq = [(r.choice(PDKS), r.choice([top, top, r.randrange(nmods)])) for _ in range(r.randint(2, 4))]
+    return dict(mods=mods, ops=[[pk, r.choice(VIAS), tp] for pk, tp in seq], pattern=pat)
+
+
+def hjob_size(j):
+    return (sum(len(m["insts"]) for m in j["mods"]), len(j["ops"]), len(json.dumps(j)))
+
+
+def canon_hjob(j):
+    return json.dumps({k: v for k, v in j.items() if k in ("mods", "ops")}, sort_keys=True, separators=(",", ":"))
+
+
+def c_hcase(job, out):
+    steps = []
+    for (pdk, via, top), st in zip(job["ops"], out["steps"]):
+        e = 0 if st["err"] is None else (1 if st["err"].get("desc") else 2)
+        nl = 2 if st["netlist"] is None else (1 if all(v[0] == "ok" for v in st["netlist"].values()) else 0)
+        steps.append(f"(HStep {PDK_C[pdk]} {top} {c_design(st['post'])} {e} {nl})")
+    return f"(HCase {c_design(out['pre'])} {clist(steps)})"
+
+
+def hist_reach(job, top):
+    seen, todo = set(), [top]
+    while todo:
+        k = todo.pop()
+        if k in seen:
+            continue
+        seen.add(k)
+        todo.extend(it["ref"] for it in job["mods"][k]["insts"] if it["t"] == "mod")
+    return seen
+
+
+def hist_features(job, out):
+    """what the history exercised, read off the implementation's observations"""
+    f = set()
+    nm = len(job["mods"])
+    refs = [sum(1 for md in job["mods"] for it in md["insts"] if it["t"] == "mod" and it["ref"] == k) for k in range(nm)]
+    if len({op[0] for op in job["ops"]}) >= 2:
+        f.add("several_pdks")
+    prev = out["pre"]
+    entered = []           # (reachable set, raised?) of the earlier compilations
+    for (pdk, via, top), st in zip(job["ops"], out["steps"]):
+        swapped = {k for k in range(nm) for a, b in zip(prev[k]["insts"], st["post"][k]["insts"]) if a["of"][0] == "prim" and b["of"][0] == "call"}
+        rs = hist_reach(job, top)
+        if st["err"] is not None:
+            f.add("raised")
+            if swapped:
+                f.add("raised_after_rewriting")
+        else:
+            for rs0, raised0 in entered:
+                hit = swapped & rs0
+                if hit:
+                    f.add("swap_after_raise" if raised0 else "swap_after_return")
+                    if any(refs[k] >= 2 for k in hit):
+                        f.add(("swap_after_raise" if raised0 else "swap_after_return") + "_shared")
+            if not swapped and any(rs0 >= rs and not raised0 for rs0, raised0 in entered):
+                f.add("recompiled_unchanged")
+        if any(rs > rs0 and top not in rs0 for rs0, _ in entered):
+            f.add("sub_then_parent")
+        entered.append((rs, st["err"] is not None))
+        prev = st["post"]
+    return f
+
+
+HIST_TARGETS = ["several_pdks", "raised", "raised_after_rewriting", "swap_after_raise", "swap_after_raise_shared",
+                "swap_after_return", "swap_after_return_shared", "recompiled_unchanged", "sub_then_parent"]
+
+
+def run_histories(run, stream, jobs, check_targets=True):
+    for i, j in enumerate(jobs):
+        j["id"] = i
+    outs = core.run_worker_sharded("c15", jobs, common=dict(kind="history"))
+    built = [(j, o) for j, o in zip(jobs, outs) if o["pre"] is not None]
+    cases = [c_hcase(j, o) for j, o in built]
+    bad = core.coq_eval_cases("C15", stream, IMPORTS, "hcase", cases, "run_cases chk_hist", chunk=40)
+    bj, bo = [j for j, _ in built], [o for _, o in built]
+    groups = {}
+    for i, code in bad:
+        if code >= 11:
+            groups.setdefault(CODE_CLASS.get(code, str(code)), []).append(i)
+    for cls, idxs in sorted(groups.items()):
+        idxs.sort(key=lambda i: hjob_size(bj[i]))
+        for i in idxs[:2]:
+            j, o = bj[i], bo[i]
+            obs = [dict(err=s["err"], netlist=s["netlist"]) for s in o["steps"]]
+            run.violation(f"C15:{cls}:history:{canon_hjob(j)}",
+                          f"a history of PDK compilations violates the property ({cls}): ops={json.dumps(j['ops'])} outcomes={json.dumps(obs)}",
+                          dict(kind="impl-violates-spec", stream="histories", violation_class=cls,
+                               case={k: v for k, v in j.items() if k in ("mods", "ops")},
+                               impl=dict(pre=o["pre"], steps=o["steps"]), failing_cases=len(idxs),
+                               reproducer="harness/impl/c15.py kind=history with this job (PYTHONPATH=<repo>): build the module table once, "
+                                          "run the compilations in order, look at Instance.of of every instance after each"))
+    ties = sorted([i for i, c in bad if c == 2], key=lambda i: hjob_size(bj[i]))
+    if ties and not groups:
+        i = ties[0]
+        run.violation(f"C15:{stream}:tie", f"store model and implementation differ on history {canon_hjob(bj[i])[:300]} (property holds on every explored history)",
+                      dict(kind="correspondence-broken", stream="histories", case={k: v for k, v in bj[i].items() if k in ("mods", "ops")},
+                           impl=bo[i], disagreeing_cases=len(ties), theorem="C15 correspondence stream histories (Model/C15Store.v hrun)"),
+                      found_input=False)
+    feats = {}
+    for j, o in built:
+        for f in hist_features(j, o):
+            feats[f] = feats.get(f, 0) + 1
+    # the features are read off the implementation's observations: when the stream reports a violation of the property
+    # they say nothing about the generator, and the check fails anyway
+    if check_targets and not groups:
+        for tname in HIST_TARGETS:
+            if not feats.get(tname):
+                run.violation(f"C15:coverage:histories:{tname}", f"coverage target missed: no history with {tname} (fail closed)",
+                              dict(kind="coverage", stream="histories", measured=feats), found_input=False)
+    steps = [s for o in bo for s in o["steps"]]
+    run.stream(stream, len(cases), len({canon_hjob(j) for j in bj if len(j["ops"]) >= 2 and len(j["mods"]) >= 2}),
+               compilations=len(steps), raised=sum(1 for s in steps if s["err"] is not None),
+               raised_fraction=round(sum(1 for s in steps if s["err"] is not None) / max(1, len(steps)), 3),
+               build_failures=len(jobs) - len(built), spec_violation_groups=len(groups), model_disagreements=len(ties),
+               features=feats, patterns={p: sum(1 for j in bj if j.get("pattern", "corpus") == p) for p in sorted({j.get("pattern", "corpus") for j in bj})},
+               pdk_sequences=len({tuple(op[0] for op in j["ops"]) for j in bj}),
+               rule="non-trivial = at least 2 modules and 2 compilations; distinct by (module table, compilations)")
+    if built:
+        j, o = built[0]
+        run.sample(dict(stream=stream, case={k: v for k, v in j.items() if k in ("mods", "ops")},
+                        impl=[dict(err=s["err"], netlist=s["netlist"]) for s in o["steps"]]))
+    return feats
 
 
 # ---------------------------------------------------------------------------------------------- registry
@@ -482,6 +696,9 @@ def run_entries(run, tables):
 
 def run(run, tier, seed, replay=None):
     quick = tier == "quick"
+    if replay is not None and replay.get("case") is not None and replay.get("stream") == "histories":
+        run_histories(run, "histories", [dict(replay["case"])], check_targets=False)
+        return
     if replay is not None and replay.get("case") is not None and replay.get("stream") not in ("registry", "cells", "entries"):
         run_designs(run, "replay", [dict(replay["case"])], lambda j: True, "replayed case")
         return
@@ -501,6 +718,8 @@ def run(run, tier, seed, replay=None):
                 shared_submodule=sum(1 for j in hj if any(sum(1 for m in j["mods"] for it in m["insts"] if it["t"] == "mod" and it["ref"] == k) >= 2 for k in range(len(j["mods"])))),
                 two_copies=sum(1 for j in hj if j["copies"] == 2), compiled_twice=sum(1 for j in hj if j["times"] == 2),
                 via={v: sum(1 for j in hj if j["via"] == v) for v in ("direct", "name", "module", "default")})
+    n_hist = 160 if quick else 2500
+    run_histories(run, "histories", hist_corpus() + [hist_job(core.rng(seed, "C15", "hist", k), tables) for k in range(n_hist)])
     run_designs(run, "malformed", malformed_jobs(tables), lambda j: True, "requests no device satisfies / rejected parameter values; all count")
     run_registry(run, seed, 24 if quick else 240)
     run_cells(run, seed, quick)
